@@ -1,7 +1,8 @@
 /-
 Non-vacuity for the static-values extension of C05: a small file written by `buildX` (class `LA;`
-with static fields `x : I` and `I : LA;`, static values [int 7, string "x"]) satisfies every
-hypothesis of `parse_build_static_values`, and what it declares is not trivial.
+with static fields `x : I` and `I : LA;`, static values [int 7, string "x"], class annotation
+`@LA;(x = 5)`) satisfies every hypothesis of `parse_build_static_values` / `parse_build_annotations`,
+and what it declares is not trivial.
 -/
 import AgVerif.Proof.DexXBuild
 import AgVerif.Proof.DexExample
@@ -20,14 +21,23 @@ def T : Tables :=
     typeLists := []
     classData := [(⟨[⟨0, 9⟩, ⟨1, 9⟩], [], [], []⟩, [2, 0, 0, 0, 0, 9, 1, 9])]
     codes := []
-    classDefs := [⟨1, 1, 0xFFFFFFFF, 0, 0xFFFFFFFF, 0, 0x70, 0x78⟩] }
+    classDefs := [⟨1, 1, 0xFFFFFFFF, 0, 0xFFFFFFFF, 0x8c, 0x70, 0x78⟩] }
 
-def TX : TablesX := ⟨T, [([.int 7, .string 2], [2, 0x04, 7, 0x17, 2])]⟩
+/-- static values [int 7, string "x"]; one annotation item `@LA;(x = 5)` (visibility RUNTIME) at 0x7d, the
+    class annotation set [0x7d] at 0x84, the annotations directory of the class at 0x8c -/
+def TX : TablesX :=
+  { base := T
+    encArrays := [([.int 7, .string 2], [2, 0x04, 7, 0x17, 2])]
+    annItems := [(⟨1, 1, [(2, .int 5)]⟩, [1, 1, 1, 2, 0x04, 5])]
+    annSets := [[0x7d]]
+    annRefs := []
+    annDirs := [⟨0x84, [], [], []⟩] }
 
-def L : Layout := ⟨0xa0, [⟨0x2002, 3, 0x40⟩, ⟨0x0001, 3, 0x4c⟩, ⟨0x0002, 2, 0x58⟩, ⟨0x0004, 2, 0x60⟩, ⟨0x0005, 0, 0x70⟩,
-  ⟨0x2000, 1, 0x70⟩, ⟨0x2005, 1, 0x78⟩, ⟨0x0006, 1, 0x80⟩, ⟨0x1000, 1, 0xa0⟩]⟩
+def L : Layout := ⟨0xbc, [⟨0x2002, 3, 0x40⟩, ⟨0x0001, 3, 0x4c⟩, ⟨0x0002, 2, 0x58⟩, ⟨0x0004, 2, 0x60⟩, ⟨0x0005, 0, 0x70⟩,
+  ⟨0x2000, 1, 0x70⟩, ⟨0x2005, 1, 0x78⟩, ⟨0x2004, 1, 0x7d⟩, ⟨0x1003, 1, 0x84⟩, ⟨0x2006, 1, 0x8c⟩, ⟨0x0006, 1, 0x9c⟩,
+  ⟨0x1000, 1, 0xbc⟩]⟩
 
-def size : Nat := 0x110
+def size : Nat := 0x150
 
 theorem itemsOk : ItemsOk T where
   strItem := Example.strItem_dec _ (by decide)
@@ -56,6 +66,26 @@ theorem arraysOk : ∀ p ∈ TX.encArrays, EncArray p.2 p.1 := by
       · exact .scalar 0x04 0 [7] _ (by decide) (by decide) (by decide) rfl
       · exact .scalar 0x17 0 [2] _ (by decide) (by decide) (by decide) rfl),
     by decide, rfl⟩
+
+theorem annItemsOk : ∀ p ∈ TX.annItems, EncAnnItem p.2 p.1.visibility p.1.typeIdx p.1.elems := by
+  intro p hp
+  simp only [TX, List.mem_singleton] at hp
+  subst hp
+  refine ⟨[1, 1, 2, 0x04, 5], rfl, ?_⟩
+  exact Spec.EncodedValue.Encodes.annotation [1] [1] 1 [⟨[2], 2, [0x04, 5], .int 5⟩]
+    (by decide) (by decide) (by decide) (by decide) (by decide) (by decide)
+    (by
+      intro q hq
+      simp only [List.mem_singleton] at hq
+      subst hq
+      exact ⟨by decide, by decide, by decide⟩)
+    (by
+      intro q hq
+      simp only [List.mem_singleton] at hq
+      subst hq
+      exact .scalar 0x04 0 [5] _ (by decide) (by decide) (by decide) rfl)
+
+theorem itemsOkX : ItemsOkX TX := ⟨itemsOk, arraysOk, annItemsOk⟩
 
 theorem consistent : ConsistentX TX L size := by decide +kernel
 theorem wf : WFX TX L := by decide +kernel
